@@ -1,3 +1,290 @@
-/-! # C17 — property theorems (stub: not built yet) -/
+import PymtlVerif.Proofs.Queue
+/-!
+# C17 — library queues are FIFOs with their advertised same-cycle behaviour
+
+Vocabulary (all in `Model/Queue.lean`): `runCls c n d is` are the per-cycle outputs of queue class `c` built with
+capacity parameter `n` (registers initially `d`) over the input history `is`; `specStep st k N` is one cycle of the
+abstract FIFO of kind `k` and capacity `N` in interface style `st`; `LegalTrace` says that every `en` input on an
+en/rdy interface was raised only with the same cycle's `rdy` high (val/rdy sides are unconstrained);
+`ledger st is os` lists the messages accepted and delivered by the handshakes visible at the ports since the
+last cycle in which a reset took effect.
+
+Classes covered by the refinement theorems: all of `queues.py` (`n = 1`: `*Queue1EntryRTL`; `n ≥ 2`: ctrl + dpath),
+all of `stream/queues.py`, `enrdy_queues.py` Normal1/Pipe1/Bypass1, all four of `valrdy_queues.py`
+(`NormalQueueRTL` for `n ≥ 2`), the three CL queues. `enrdy_queues.BypassQueue2RTL` does **not** satisfy the
+enqueue-ready law (see `bypass2_enq_law_fails`); for it FIFO order, count and the dequeue law are proved
+(`bypass2_fifo_order`).
+-/
 namespace PV.C17
+open PV.Queue
+
+/-! ## invariant and refinement, per implementation family -/
+
+/-- `queues.py` / `stream/queues.py` ctrl + dpath (`gate` = ready gated by reset): over every input history
+(legal or not) head and tail stay below `n`, `count ≤ n`, `tail = (head + count) mod n`, and in the next cycle no
+`Bits` arithmetic wraps: the width-truncated register update equals the unbounded one. -/
+theorem ring_inv {α} (gate : Bool) (k : Kind) (n : Nat) (hn : 1 ≤ n) (d : α) (is : List (In α)) (i : In α) :
+    let s := runState (ringStep gate k n) (Ring.init d) is
+    s.head < n ∧ s.tail < n ∧ s.count ≤ n ∧ s.tail = (s.head + s.count) % n ∧
+    (ringStep gate k n s i).1 = ringIdeal n s i.msg i.rst
+      (i.enq && (!(gate && i.rst) && enqLaw k n s.count i.deq))
+      (i.deq && (!(gate && i.rst) && deqLaw k s.count i.enq)) := by
+  have key : ∀ (is : List (In α)) (s : Ring α), RInv n s → RInv n (runState (ringStep gate k n) s is) := by
+    intro is
+    induction is with
+    | nil => intro s hs; exact hs
+    | cons j is ih =>
+      intro s hs
+      simp only [runState]
+      apply ih
+      rw [ringStep_fst]
+      have hf := ex_dx_facts k n s.count (!(gate && j.rst)) j.enq j.deq hs.hn hs.hcnt
+      exact (ringCore_sim n s j.msg j.rst _ _ hs hf.1 hf.2.1).2
+  have hs := key is _ (ring_init_inv n hn d)
+  have hf := ex_dx_facts k n _ (!(gate && i.rst)) i.enq i.deq hs.hn hs.hcnt
+  refine ⟨hs.hhead, ?_, hs.hcnt, hs.htail, ?_⟩
+  · rw [hs.htail]; exact Nat.mod_lt _ hs.hn
+  · rw [ringStep_fst]; exact ringCore_eq_ideal n _ i.msg i.rst _ _ hs hf.1 hf.2.1
+
+/-- one cycle of the ring-buffer queues commutes with one cycle of `FIFO_spec(kind, n)` under the abstraction
+`rabs s = [regs[(head + j) mod n] | j < count]`, with equal outputs (rdy, val, message, count); no legality
+assumption is needed. `st` is `styleQ` (`queues.py`) or `styleS` (`stream/queues.py`). -/
+theorem ring_refines {α} (st : Style) (hr : st.reset = true) (hp : st.push = false) (hf : st.free = false)
+    (k : Kind) (n : Nat) (hn : 1 ≤ n) (s : Ring α) (i : In α) (hi : RInv n s) :
+    rabs n (ringStep st.gate k n s i).1 = (specStep st k n (rabs n s) i).1 ∧
+    (ringStep st.gate k n s i).2 = (specStep st k n (rabs n s) i).2 ∧
+    RInv n (ringStep st.gate k n s i).1 := by
+  have hfacts := ex_dx_facts k n s.count (!(st.gate && i.rst)) i.enq i.deq hn hi.hcnt
+  have hc := ringCore_sim n s i.msg i.rst _ _ hi hfacts.1 hfacts.2.1
+  refine ⟨?_, (ringSim st k n hn hr hp hf).out_eq s i hi, ?_⟩
+  · rw [ringStep_fst, specStep_fst]
+    simp only [hr, rabs_length, specEr, specDr, Bool.true_and]
+    exact hc.1
+  · rw [ringStep_fst]; exact hc.2
+
+/-- the twelve one-entry classes (`queues.py` and `stream/queues.py` `*Queue1EntryRTL`, `enrdy_queues.py` and
+`valrdy_queues.py` `*Queue1RTL`): outputs equal the capacity-1 specification's for every state and input, and for a
+protocol-legal input the next state is the specification's next state (`abs1 s = if full then [entry] else []`). -/
+theorem one_entry_refines {α} (k : Kind) (s : Queue.One α) (i : In α) :
+    ((q1Step k s i).2 = (specStep styleQ k 1 (abs1 s) i).2 ∧
+      (Legal styleQ (q1Step k s i).2 i → abs1 (q1Step k s i).1 = (specStep styleQ k 1 (abs1 s) i).1)) ∧
+    ((s1Step k s i).2 = (specStep styleS k 1 (abs1 s) i).2 ∧
+      abs1 (s1Step k s i).1 = (specStep styleS k 1 (abs1 s) i).1) ∧
+    ((er1Step k s i).2 = (specStep (erStyle k) k 1 (abs1 s) i).2 ∧
+      (Legal (erStyle k) (er1Step k s i).2 i → abs1 (er1Step k s i).1 = (specStep (erStyle k) k 1 (abs1 s) i).1)) ∧
+    ((v1Step k s i).2 = (specStep styleV1 k 1 (abs1 s) i).2 ∧
+      abs1 (v1Step k s i).1 = (specStep styleV1 k 1 (abs1 s) i).1) :=
+  ⟨⟨(q1Sim k).out_eq s i trivial, fun h => ((q1Sim k).next s i trivial h).1⟩,
+   ⟨(s1Sim k).out_eq s i trivial, ((s1Sim k).next s i trivial ⟨by simp [styleS], by simp [styleS]⟩).1⟩,
+   ⟨(er1Sim k).out_eq s i trivial, fun h => ((er1Sim k).next s i trivial h).1⟩,
+   ⟨(v1Sim k).out_eq s i trivial, ((v1Sim k).next s i trivial ⟨by simp [styleV1], by simp [styleV1]⟩).1⟩⟩
+
+/-- `valrdy_queues.NormalQueueRTL(n)` (full bit, enq/deq pointers, `num_free_entries`): invariant
+(`enq_ptr, deq_ptr < n`, `full → enq_ptr = deq_ptr`) preserved, outputs (including `num_free_entries`) equal the
+specification's, state commutes; the abstraction reads `vcount` registers from `deq_ptr` on, where
+`vcount = n` if full, else `(enq_ptr − deq_ptr) mod n`. -/
+theorem vring_refines {α} (n : Nat) (hn : 1 ≤ n) (s : VRing α) (i : In α) (hi : VInv n s) :
+    rabs n (toRing n (vrStep n s i).1) = (specStep styleVN .normal n (rabs n (toRing n s)) i).1 ∧
+    (vrStep n s i).2 = (specStep styleVN .normal n (rabs n (toRing n s)) i).2 ∧
+    VInv n (vrStep n s i).1 :=
+  have h := (vrSim (α := α) n hn).next s i hi ⟨by simp [styleVN], by simp [styleVN]⟩
+  ⟨h.1, (vrSim (α := α) n hn).out_eq s i hi, h.2⟩
+
+/-- the CL queues (`deque`, newest at the left): with the block order their method constraints impose, one cycle
+commutes with the specification under `abs q = reverse q`, outputs equal, `len ≤ n` preserved. -/
+theorem cl_refines {α} (k : Kind) (n : Nat) (hn : 1 ≤ n) (q : List α) (i : In α) (hq : q.length ≤ n) :
+    (clStep k n q i).1.reverse = (specStep styleV1 k n q.reverse i).1 ∧
+    (clStep k n q i).2 = (specStep styleV1 k n q.reverse i).2 ∧
+    (clStep k n q i).1.length ≤ n :=
+  have h := cl_sim k n hn q i hq
+  ⟨h.2.1, h.1, h.2.2⟩
+
+/-! ## refinement over arbitrary histories -/
+
+/-- For every class except `BypassQueue2RTL`, every capacity the class can be built with and every protocol-legal
+input history: at every cycle the outputs (ready/valid, message, count) are those of `FIFO_spec(kind, capacity)`. -/
+theorem refines_trace {α} (c : Cls) (hc : c ≠ .erBypass2) (n : Nat) (hn : c.capOK n) (d : α) (is : List (In α))
+    (hl : LegalTrace c.style is (runCls c n d is)) :
+    runCls c n d is = runSpec c.style c.kind (c.cap n) is :=
+  cls_trace c hc n hn d is hl
+
+/-! ## corollaries on the observable handshakes, for arbitrary histories -/
+
+/-- Nothing lost, duplicated or invented, and order kept: the accepted messages are exactly the delivered ones
+followed by at most `capacity` messages still inside. -/
+theorem nothing_lost {α} (c : Cls) (hc : c ≠ .erBypass2) (n : Nat) (hn : c.capOK n) (d : α) (is : List (In α))
+    (hl : LegalTrace c.style is (runCls c n d is)) :
+    ∃ inside, (ledger c.style is (runCls c n d is)).acc = (ledger c.style is (runCls c n d is)).del ++ inside ∧
+      inside.length ≤ c.cap n := by
+  rw [cls_trace c hc n hn d is hl]
+  exact ⟨_, spec_ledger c.style c.kind (c.cap n) (cap_pos c n hn) is⟩
+
+/-- FIFO order: the delivered sequence is a prefix of the accepted sequence. -/
+theorem fifo_order {α} (c : Cls) (hc : c ≠ .erBypass2) (n : Nat) (hn : c.capOK n) (d : α) (is : List (In α))
+    (hl : LegalTrace c.style is (runCls c n d is)) :
+    (ledger c.style is (runCls c n d is)).del =
+      (ledger c.style is (runCls c n d is)).acc.take (ledger c.style is (runCls c n d is)).del.length := by
+  obtain ⟨inside, h, _⟩ := nothing_lost c hc n hn d is hl
+  rw [h]; simp
+
+/-- The occupancy (accepted − delivered) never exceeds the capacity. -/
+theorem never_exceeds {α} (c : Cls) (hc : c ≠ .erBypass2) (n : Nat) (hn : c.capOK n) (d : α) (is : List (In α))
+    (hl : LegalTrace c.style is (runCls c n d is)) :
+    (ledger c.style is (runCls c n d is)).acc.length - (ledger c.style is (runCls c n d is)).del.length ≤ c.cap n := by
+  obtain ⟨inside, h, h2⟩ := nothing_lost c hc n hn d is hl
+  rw [h, List.length_append]; omega
+
+/-- occupancy after history `pre`, as seen by an observer of the ports -/
+def occ {α} (c : Cls) (n : Nat) (d : α) (pre : List (In α)) : Nat :=
+  (ledger c.style pre (runCls c n d pre)).acc.length - (ledger c.style pre (runCls c n d pre)).del.length
+
+/-- the output of the cycle that follows a history always exists (so the `ho` hypotheses below are satisfiable) -/
+theorem next_out_exists {α} (c : Cls) (n : Nat) (d : α) (pre : List (In α)) (i : In α) :
+    ∃ o, runCls c n d (pre ++ [i]) = runCls c n d pre ++ [o] :=
+  runCls_append c n d pre i
+
+/-- all per-cycle laws at once: `o` is the output in the cycle with inputs `i` that follows history `pre` -/
+theorem next_out {α} (c : Cls) (hc : c ≠ .erBypass2) (n : Nat) (hn : c.capOK n) (d : α)
+    (pre : List (In α)) (i : In α) (o : Out α)
+    (hl : LegalTrace c.style (pre ++ [i]) (runCls c n d (pre ++ [i])))
+    (ho : runCls c n d (pre ++ [i]) = runCls c n d pre ++ [o]) :
+    let live := !(c.style.gate && i.rst)
+    let avail := live && deqLaw c.kind (occ c n d pre) i.enq
+    occ c n d pre ≤ c.cap n ∧
+    o.enqRdy = (live && enqLaw c.kind (c.cap n) (occ c n d pre) i.deq) ∧
+    o.deqRdy = (if c.style.push then i.deq && avail else avail) ∧
+    o.count = (if c.style.free then (if i.rst then c.cap n else c.cap n - occ c n d pre) else occ c n d pre) := by
+  obtain ⟨h1, h2⟩ := cls_next c hc n hn d pre i o hl ho
+  have := spec_next_out c.style c.kind (c.cap n) (cap_pos c n hn) pre i
+  simp only [occ, h1, h2]
+  exact this
+
+/-- The count output is exact at every cycle: it equals accepted − delivered (for `num_free_entries`:
+capacity minus that; the capacity while reset is high). -/
+theorem count_exact {α} (c : Cls) (hc : c ≠ .erBypass2) (n : Nat) (hn : c.capOK n) (d : α)
+    (pre : List (In α)) (i : In α) (o : Out α)
+    (hl : LegalTrace c.style (pre ++ [i]) (runCls c n d (pre ++ [i])))
+    (ho : runCls c n d (pre ++ [i]) = runCls c n d pre ++ [o]) :
+    o.count = (if c.style.free then (if i.rst then c.cap n else c.cap n - occ c n d pre) else occ c n d pre) ∧
+    occ c n d pre ≤ c.cap n :=
+  have h := next_out c hc n hn d pre i o hl ho
+  ⟨h.2.2.2, h.1⟩
+
+/-- The ready/valid laws, stated outright on `len = accepted − delivered` (`live` = not held low by reset; only
+`queues.py` gates its ready outputs with reset):
+enqueue-ready iff `len < capacity`, or — pipe queue — a dequeue is offered this cycle;
+dequeue-ready/valid iff `len > 0`, or — bypass queue — an enqueue is offered this cycle
+(`enrdy_queues.py`: the observable is `deq.en`, the same condition and-ed with the consumer's `deq.rdy`). -/
+theorem rdy_laws {α} (c : Cls) (hc : c ≠ .erBypass2) (n : Nat) (hn : c.capOK n) (d : α)
+    (pre : List (In α)) (i : In α) (o : Out α)
+    (hl : LegalTrace c.style (pre ++ [i]) (runCls c n d (pre ++ [i])))
+    (ho : runCls c n d (pre ++ [i]) = runCls c n d pre ++ [o]) :
+    let live := !(c.style.gate && i.rst)
+    let len := occ c n d pre
+    o.enqRdy = (live && match c.kind with
+                        | .pipe => decide (len < c.cap n) || i.deq
+                        | _ => decide (len < c.cap n)) ∧
+    o.deqRdy = ((if c.style.push then i.deq else true) &&
+                (live && match c.kind with
+                         | .bypass => decide (len > 0) || i.enq
+                         | _ => decide (len > 0))) := by
+  have h := next_out c hc n hn d pre i o hl ho
+  refine ⟨h.2.1, ?_⟩
+  rw [h.2.2.1]
+  cases c.style.push <;> cases c.kind <;> simp [deqLaw]
+
+/-- A full pipe queue is enqueue-ready exactly when a dequeue happens in that cycle. -/
+theorem pipe_enq_when_full {α} (c : Cls) (hc : c ≠ .erBypass2) (n : Nat) (hn : c.capOK n) (d : α)
+    (pre : List (In α)) (i : In α) (o : Out α)
+    (hl : LegalTrace c.style (pre ++ [i]) (runCls c n d (pre ++ [i])))
+    (ho : runCls c n d (pre ++ [i]) = runCls c n d pre ++ [o])
+    (hk : c.kind = .pipe) (hfull : occ c n d pre = c.cap n) (hlive : (c.style.gate && i.rst) = false) :
+    o.enqRdy = delivered c.style i o := by
+  have h := next_out c hc n hn d pre i o hl ho
+  have hp := cap_pos c n hn
+  simp only [delivered, h.2.1, h.2.2.1, hk, hfull, hlive, enqLaw, deqLaw]
+  cases c.style.push <;> cases i.deq <;> simp [hp]
+
+/-- An empty bypass queue offers a message exactly when an enqueue happens in that cycle
+(`enrdy_queues.py`: `deq.en` iff additionally the consumer is ready). -/
+theorem bypass_deq_when_empty {α} (c : Cls) (hc : c ≠ .erBypass2) (n : Nat) (hn : c.capOK n) (d : α)
+    (pre : List (In α)) (i : In α) (o : Out α)
+    (hl : LegalTrace c.style (pre ++ [i]) (runCls c n d (pre ++ [i])))
+    (ho : runCls c n d (pre ++ [i]) = runCls c n d pre ++ [o])
+    (hk : c.kind = .bypass) (hempty : occ c n d pre = 0) (hlive : (c.style.gate && i.rst) = false) :
+    o.deqRdy = ((if c.style.push then i.deq else true) && accepted i o) := by
+  have h := next_out c hc n hn d pre i o hl ho
+  have hp := cap_pos c n hn
+  simp only [accepted, h.2.1, h.2.2.1, hk, hempty, hlive, enqLaw, deqLaw]
+  cases c.style.push <;> cases i.deq <;> cases i.enq <;> simp [hp]
+
+/-- `valrdy_queues.NormalQueueRTL`: `num_free_entries = n − len` at every cycle (`n` while reset is high). -/
+theorem num_free {α} (n : Nat) (hn : 2 ≤ n) (d : α) (pre : List (In α)) (i : In α) (o : Out α)
+    (ho : runCls .vrNormalN n d (pre ++ [i]) = runCls .vrNormalN n d pre ++ [o]) :
+    o.count = (if i.rst then n else n - occ .vrNormalN n d pre) ∧ occ .vrNormalN n d pre ≤ n := by
+  have hl : LegalTrace Cls.vrNormalN.style (pre ++ [i]) (runCls .vrNormalN n d (pre ++ [i])) := by
+    generalize runCls Cls.vrNormalN n d (pre ++ [i]) = os
+    generalize pre ++ [i] = is
+    induction is generalizing os with
+    | nil => simp [LegalTrace]
+    | cons j is ih =>
+      cases os with
+      | nil => simp [LegalTrace]
+      | cons o os => exact ⟨⟨by simp [Cls.style, styleVN], by simp [Cls.style, styleVN]⟩, ih os⟩
+  have h := count_exact .vrNormalN (by decide) n hn d pre i o hl ho
+  simpa [Cls.style, styleVN, Cls.cap] using h
+
+/-! ## `enrdy_queues.BypassQueue2RTL` -/
+
+/-- `BypassQueue2RTL` keeps FIFO order and loses nothing: accepted = delivered ++ (at most two messages inside). -/
+theorem bypass2_fifo_order {α} (d : α) (is : List (In α))
+    (hl : LegalTrace styleEB is (runCls .erBypass2 2 d is)) :
+    ∃ inside, (ledger styleEB is (runCls .erBypass2 2 d is)).acc =
+        (ledger styleEB is (runCls .erBypass2 2 d is)).del ++ inside ∧ inside.length ≤ 2 ∧
+      (ledger styleEB is (runCls .erBypass2 2 d is)).del =
+        (ledger styleEB is (runCls .erBypass2 2 d is)).acc.take (ledger styleEB is (runCls .erBypass2 2 d is)).del.length := by
+  have e : runCls .erBypass2 2 d is = run er2Step (Queue.One.init d, Queue.One.init d) is := rfl
+  have h := er2_run is (Queue.One.init d, Queue.One.init d) ⟨[], []⟩ (by simp [abs2, abs1, Queue.One.init])
+    (by rw [← e]; exact hl)
+  simp only [ledger, e]
+  refine ⟨_, h, ?_, ?_⟩
+  · simp only [abs2, abs1]; split <;> split <;> simp
+  · rw [h]; simp
+
+/-- its count and dequeue law hold in every state: `q1.full + q2.full` is the number of messages inside, and
+`deq.en = deq.rdy ∧ (len > 0 ∨ enq.en)` -/
+theorem bypass2_count_deq {α} (s : Queue.One α × Queue.One α) (i : In α) :
+    (er2Step s i).2.count = (abs2 s).length ∧ (abs2 s).length ≤ 2 ∧
+    (er2Step s i).2.deqRdy = (i.deq && deqLaw .bypass (abs2 s).length i.enq) := by
+  obtain ⟨⟨f1, e1⟩, ⟨f2, e2⟩⟩ := s
+  obtain ⟨r, en, m, dq⟩ := i
+  cases f1 <;> cases f2 <;> cases en <;> cases dq <;> simp [er2Step, er1Raw, abs2, abs1, b2n, deqLaw]
+
+/-- …but not the enqueue-ready law: after `enq 1, enq 2, deq` one of two entries is used and `enq.rdy` is low
+(the model follows the real class here; the check reports the same history on the real class). -/
+theorem bypass2_enq_law_fails :
+    (runCls .erBypass2 2 (0 : Nat)
+      [⟨false, true, 1, false⟩, ⟨false, true, 2, false⟩, ⟨false, false, 0, true⟩, ⟨false, false, 0, false⟩]).map
+        (fun o => (o.enqRdy, o.count)) = [(true, 0), (true, 1), (false, 2), (false, 1)] := by
+  decide
+
+/-! ## non-vacuity -/
+
+/-- a legal history with a pointer wrap, an enqueue+dequeue at full and one at empty exists, and the theorems'
+hypotheses hold for it -/
+example : LegalTrace styleQ
+    [⟨false, true, 5, false⟩, ⟨false, true, 6, false⟩, ⟨false, true, 7, true⟩, ⟨false, false, 0, true⟩, ⟨true, false, 0, false⟩]
+    (runCls .qPipe 2 (0 : Nat)
+      [⟨false, true, 5, false⟩, ⟨false, true, 6, false⟩, ⟨false, true, 7, true⟩, ⟨false, false, 0, true⟩, ⟨true, false, 0, false⟩]) := by
+  decide
+
+example : (runCls .qPipe 2 (0 : Nat)
+      [⟨false, true, 5, false⟩, ⟨false, true, 6, false⟩, ⟨false, true, 7, true⟩, ⟨false, false, 0, true⟩]).map
+        (fun o => (o.enqRdy, o.deqRdy, o.ret, o.count)) =
+    [(true, false, none, 0), (true, true, some 5, 1), (true, true, some 5, 2), (true, true, some 6, 2)] := by
+  decide
+
+example : Cls.capOK .vrNormalN 3 ∧ Cls.capOK .qBypass 1 ∧ RInv 3 (Ring.init (0 : Nat)) ∧ VInv 3 (VRing.init (0 : Nat)) :=
+  ⟨by simp [Cls.capOK], by simp [Cls.capOK], ring_init_inv 3 (by decide) 0, vring_init_inv 3 (by decide) 0⟩
+
 end PV.C17
